@@ -420,6 +420,7 @@ class C03(MotionMonitor):
                (3, "rel-inch-switching", mk(rel=True, inch=True, arcs=True, arcs_rel=True, spell=True, p_arc=0.08)),
                (1, "firmware", mk(fw=True, rel=True)), (1, "g28-mid", mk(g28mid=True, rel=True, inch=True)),
                (0.5, "g92xyz-outside-episodes", mk(g92xyz=True, rel=True, g28mid=True, boost=0.1)),
+               (0.5, "g92xyz-and-unit-switches", mk(g92xyz=True, inch=True, g28mid=True, boost=0.1)),
                (1.5, "arcs-under-g91", mk(rel=True, arcs=True, arcs_rel=True))]
 
     def oracle(self, tr, stats, case):
